@@ -66,8 +66,10 @@ class Replay:
     """How to call the real function for a counterexample: `call(pyargs) -> value` runs the real code (imported from
     the repository under test); lowering/lifting default to the generic by-sort rules."""
 
-    def __init__(self, call=None, lower=None, lift_result=None, lift_params=None, facts=None):
+    def __init__(self, call=None, lower=None, lift_result=None, lift_params=None, facts=None, lower_z3=None, judge=None):
         self.call, self.lower, self.lift_result, self.lift_params, self.facts = call, lower, lift_result, lift_params, facts
+        self.lower_z3 = lower_z3       # (z3 model, obligation) -> pyargs, for sorts without a generic lowering (JSON values)
+        self.judge = judge             # (pyargs, outcome, obligation) -> [violated clause names], replaces the generic native evaluation
 
 
 def import_target(target):
@@ -206,9 +208,11 @@ class Check:
         if ob.model is not None and contract.replay is not None:
             try:
                 lower = contract.replay.lower
-                pyargs = lower(ob.model) if lower else {k: lower_param(contract.params[k], k, ob.model) for k in contract.params}
+                if contract.replay.lower_z3: pyargs = contract.replay.lower_z3(ob.z3model, ob)
+                else: pyargs = lower(ob.model) if lower else {k: lower_param(contract.params[k], k, ob.model) for k in contract.params}
                 outcome = native_outcome(contract, pyargs)
-                pre, bad = native_check(contract, pyargs, outcome)
+                if contract.replay.judge: pre, bad = True, contract.replay.judge(pyargs, outcome, ob)
+                else: pre, bad = native_check(contract, pyargs, outcome)
                 rec.update(input={k: repr(v) for k, v in pyargs.items()}, native_outcome=[outcome[0], repr(outcome[1])], natively_violated=bad)
                 if pre and bad:
                     self.violation(key, f'{ob.name} fails for input {rec["input"]}: real code gives {rec["native_outcome"]}, violating {bad}', rec)
